@@ -150,8 +150,8 @@ package store
 //@   local st *store.Store#1
 //@   local msg *nats.Msg#1
 //@   local err error#1
-//@   requires st != nil && st.db != nil && msg != nil && acyclic(st.db)
-//@   modifies state(st.nc), state(st.db.db)
+//@   requires st != nil && st.db != nil && st.db.db != nil && msg != nil && acyclic(st.db)
+//@   modifies state(st.nc), state(st.db.db), state(sql.Tx)
 //@   ensures [C06] log-kept: pubKept(st.nc)
 //@   ensures [C06] rebroadcast-batch-is-received-batch: forall i int :: old(pubN(st.nc)) <= i && i < pubN(st.nc) ==> batchOf(pubPts(st.nc, i), msg.Data) && (exists a string :: reachL(st.db, nodeOf(msg), a) && pubSubj(st.nc, i) == sprintf("up.%v.%v", a, nodeOf(msg)))
 //@   ensures [C06] accepted-reaches-every-live-ancestor: pubN(st.nc) > old(pubN(st.nc)) && !busFailed(st.nc) && !dbFailed(st.db.db) ==> (forall a string :: reachL(st.db, nodeOf(msg), a) ==> (exists i int :: old(pubN(st.nc)) <= i && i < pubN(st.nc) && pubSubj(st.nc, i) == sprintf("up.%v.%v", a, nodeOf(msg))))
